@@ -65,6 +65,7 @@ type Knobs struct {
 	PCycleKeep  int // keep a constructor that closes a cycle in the predicted strict graph
 
 	PreferAvailable bool // "visible" means transitively available in the predicted model
+	PReencode       int  // C15: probability that a function gets an alternative equivalent encoding
 
 	// Case-level switches
 	NoDecorators   bool
@@ -574,6 +575,43 @@ func (g *gen) genProvide(s int) Op {
 	if o.Name != "" || o.Group != "" || len(o.As) > 0 || o.Export || o.Info || o.CB {
 		op.O = o
 	}
+	if g.pct(g.k.PReencode, "reenc") {
+		af := &Fn{ID: f.ID, Err: f.Err, Var: f.Var, Faults: f.Faults, Dur: f.Dur}
+		ao := *o
+		af.P = g.encodeParams(pl)
+		switch {
+		case useAs:
+			af.R = f.R // As needs the positional/option form
+		case useNameOpt || useGroupOpt:
+			// option form -> tag form
+			ao.Name, ao.Group = "", ""
+			af.R = g.encodeResults(rl, false)
+		case nres == 1 && (rl[0].key.Name != "" || rl[0].key.Group != ""):
+			// tag form -> option form
+			l := rl[0]
+			r := l.result()
+			if l.key.Name != "" {
+				ao.Name, r.Name = l.key.Name, ""
+			} else {
+				ao.Group = l.key.Group
+				if l.flatten {
+					ao.Group += ",flatten"
+				}
+				r.Group, r.Slice, r.Flatten = "", l.flatten, false
+			}
+			af.R = []Result{r}
+			g.labelAlt("opt-tag-move")
+		default:
+			af.R = g.encodeResults(rl, g.pct(50, "forceobj"))
+		}
+		if useNameOpt || useGroupOpt {
+			g.labelAlt("opt-tag-move")
+		}
+		if af.Var == "" && g.pct(40, "addvar") {
+			af.Var = g.pickStr(g.k.Types, "avart")
+		}
+		g.setAlt(len(g.c.Ops), af, &ao)
+	}
 	// keep the predicted model in step
 	mf := NewMFn(f, op.O, KCtor, s)
 	if g.m.DupProvide(mf) == "" {
@@ -648,6 +686,16 @@ func (g *gen) genDecorate(s int) (Op, bool) {
 	f.R = g.encodeResults(rl, false)
 	g.errAndVariadic(f)
 	g.faults(f)
+	var altF *Fn
+	if g.pct(g.k.PReencode, "reenc") {
+		af := &Fn{ID: f.ID, Err: f.Err, Var: f.Var, Faults: f.Faults, Dur: f.Dur}
+		af.P = g.encodeParams(pl)
+		af.R = g.encodeResults(rl, g.pct(50, "forceobj"))
+		if af.Var == "" && g.pct(40, "addvar") {
+			af.Var = g.pickStr(g.k.Types, "avart")
+		}
+		altF = af
+	}
 	op := Op{K: OpDecorate, S: s, F: f}
 	o := &Opts{}
 	if g.pct(g.k.PInfo, "info") {
@@ -673,6 +721,9 @@ func (g *gen) genDecorate(s int) (Op, bool) {
 		} else {
 			g.m.AddDeco(mf)
 		}
+	}
+	if altF != nil {
+		g.setAlt(len(g.c.Ops), altF, nil)
 	}
 	return op, true
 }
@@ -723,11 +774,20 @@ func (g *gen) removeDeco(mf *MFn) {
 func (g *gen) genInvoke(s int) Op {
 	f := g.newFn()
 	npar := 1 + g.pick(g.k.MaxParams, "npar")
-	f.P = g.encodeParams(g.drawParamLeaves(s, npar, g.k.PInvokeAll, true))
+	ipl := g.drawParamLeaves(s, npar, g.k.PInvokeAll, true)
+	f.P = g.encodeParams(ipl)
 	if g.pct(g.k.PErr, "err?") {
 		f.Err = true
 	}
 	g.faults(f)
+	if g.pct(g.k.PReencode, "reenc") {
+		af := &Fn{ID: f.ID, Err: f.Err, Faults: f.Faults}
+		af.P = g.encodeParams(ipl)
+		if g.pct(40, "addvar") {
+			af.Var = g.pickStr(g.k.Types, "avart")
+		}
+		g.setAlt(len(g.c.Ops), af, nil)
+	}
 	op := Op{K: OpInvoke, S: s, F: f}
 	if g.pct(g.k.PInfo, "info") {
 		op.O = &Opts{Info: true}
@@ -736,6 +796,21 @@ func (g *gen) genInvoke(s int) Op {
 }
 
 func (g *gen) pickScope(lbl string) int { return g.pick(g.nscope, lbl) }
+
+func (g *gen) setAlt(opIdx int, f *Fn, o *Opts) {
+	if g.c.Variant == nil {
+		g.c.Variant = &Variant{}
+	}
+	if g.c.Variant.Alt == nil {
+		g.c.Variant.Alt = map[int]*AltOp{}
+	}
+	if o != nil && o.Name == "" && o.Group == "" && len(o.As) == 0 && !o.Export && !o.Info && !o.CB {
+		o = nil
+	}
+	g.c.Variant.Alt[opIdx] = &AltOp{F: f, O: o}
+}
+
+func (g *gen) labelAlt(string) {}
 
 // focusOn appends a (probably rejected) registration and remembers its keys
 // so that the continuation touches them again.
